@@ -1,13 +1,181 @@
 /-
   x86-64 simulation, opcode class `mulDivOpcodes`: the instruction sequence the JIT emits for each of these eBPF
   instructions, run by the x86-64 machine model, computes what `EngineSem.jitExec` says (statement: `JitSim.ArmSim`).
+
+  Parts: `MulDivMem` (native stack: push/pop over `MemRel`), `MulDivDec` (decoder lengths of `jmp` and `xor r32`),
+  `MulDivExec` (straight-line runs, one lemma per instruction form), `MulDivBlock` (save/compute/restore),
+  `MulDivPaths` (opcode table, shapes of the arm and of `jitExec`, zero-divisor prefixes); here: assembly.
 -/
-import RbpfModel.Lemmas.X86Sim.Base
+import RbpfModel.Lemmas.X86Sim.MulDivPaths
 namespace Rbpf.JitSim
 open Rbpf.X86 (Cfg St Out Instr step exec decode fetch readMem writeMem)
-open Rbpf.JitAst (AI Tgt checkSeq window)
+open Rbpf.JitAst (AI Tgt checkSeq window movRR)
+open Rbpf.Interp (lo32 zx32 sx32)
+
+/-- a machine state differing from one representing `s` by a write to the register of `dst` represents `s` with
+    `dst` written -/
+theorem md_fin_wr (retAddr : Nat) (σ0 σ' : St) (s : State) (dst : Nat) (x : BitVec 64) (hdst : dst < 11)
+    (hrel : Rel0 retAddr σ0 s) (hmem : σ'.mem = σ0.mem) (hreg : σ'.reg = (σ0.set (regOf dst) x).reg) :
+    Rel0 retAddr σ' { s with reg := s.reg.setIfInBounds dst x } ∧
+      topBytes σ' { s with reg := s.reg.setIfInBounds dst x } = topBytes σ0 s := by
+  refine ⟨rel0_congr retAddr _ σ' _ (rel0_wr retAddr σ0 s dst x hdst hrel) hreg hmem, ?_⟩
+  unfold topBytes
+  rw [hmem]
+
+theorem md_fin_scratch (retAddr : Nat) (σ σ' : St) (s : State) (v : BitVec 64)
+    (hrel : Rel0 retAddr σ s) (hmem : σ'.mem = σ.mem) (hreg : σ'.reg = (σ.set 1 v).reg) :
+    Rel0 retAddr σ' s ∧ topBytes σ' s = topBytes σ s := by
+  refine ⟨rel0_congr retAddr _ σ' _ (rel0_scratch retAddr σ s 1 v (Or.inl rfl) hrel) hreg hmem, ?_⟩
+  unfold topBytes
+  rw [hmem]
+
+theorem md_mulLo_zero (w : Bool) (d : BitVec 64) : md_mulLo w d (sx32 0#32) = 0#64 := by
+  cases w <;> simp [md_mulLo, sx32, lo32, zx32]
+
+theorem md_nz_sx32 (w : Bool) (imm : BitVec 32) : md_nz w (sx32 imm) ↔ ¬ imm = 0#32 := by
+  cases w
+  · simp [md_nz, md_lo32_sx32]
+  · simp [md_nz, md_sx32_eq_zero]
+
+/-- immediate forms -/
+theorem md_core_imm (k : md_Kind) (w : Bool) (i : Insn) (hopc : i.opc.toNat = md_code k w false) : ArmSim i := by
+  intro c tgt haddr pc n a b retAddr ais σ env s s' harm hcs hb hrip hrel hpc hexec
+  obtain ⟨hd, hs, hn, hais⟩ := md_arm_eq k w false i hopc haddr pc _ ais n harm
+  subst hn hais
+  rw [md_exec_eq k w false i hopc hd hs] at hexec
+  have hx : md_x false s i = sx32 i.imm := by simp [md_x]
+  rw [hx] at hexec
+  by_cases himm : i.imm = 0#32
+  · have hnz : ¬ md_nz w (sx32 i.imm) := by rw [md_nz_sx32]; exact fun h => h himm
+    rw [himm] at hcs
+    by_cases hk : k = .mod
+    · subst hk
+      rw [md_shape_imm0_mod] at hcs
+      rw [if_pos ⟨by simp, hnz⟩, if_pos rfl] at hexec
+      have hs' : s' = s := (Outcome.next.inj hexec).symm
+      subst hs'
+      have hab : a = b := by simpa using hcs
+      subst hab
+      exact ⟨0, σ, rfl, hrel, rfl, Or.inl ⟨hpc, hrip⟩⟩
+    · rw [md_shape_imm0 k w _ _ _ hk] at hcs
+      have hs' : s' = { s with reg := s.reg.setIfInBounds i.dst.toNat 0#64 } := by
+        by_cases hm : k = .mul
+        · subst hm
+          rw [if_neg (by simp)] at hexec
+          rw [← Outcome.next.inj hexec, himm]
+          simp [md_res, md_mulLo_zero]
+        · rw [if_pos ⟨hm, hnz⟩, if_neg hk] at hexec
+          exact (Outcome.next.inj hexec).symm
+      subst hs'
+      obtain ⟨fl, hxor⟩ := md_step_xor32 c σ (regOf i.dst.toNat)
+      obtain ⟨m, hm, hrun⟩ := md_run c tgt [.aluRR false .xor (regOf i.dst.toNat) (regOf i.dst.toNat)] [] a b σ _
+        (by simpa using hcs) hrip (md_steps_one hxor)
+      have hmb : m = b := by simpa using hm
+      subst hmb
+      obtain ⟨h1, h2⟩ := md_fin_wr retAddr σ
+        { ({ σ with flags := fl }.set (regOf i.dst.toNat) 0) with rip := c.codeBase + m } s i.dst.toNat 0#64 hd hrel rfl rfl
+      exact ⟨1, _, hrun, h1, h2, Or.inl ⟨hpc, rfl⟩⟩
+  · have hnz : md_nz w (sx32 i.imm) := by rw [md_nz_sx32]; exact himm
+    rw [md_shape_imm k w _ _ _ _ himm] at hcs
+    rw [if_neg (fun h => h.2 hnz)] at hexec
+    have hs' := (Outcome.next.inj hexec).symm
+    subst hs'
+    obtain ⟨n1, σ', hst, h1, h2, h3⟩ := md_normal c tgt a b retAddr σ s i.dst.toNat hd k w _ (sx32 i.imm) hcs hrip hrel
+      (fun σ1 _ => md_step_loadImm32 c σ1 1 i.imm) (fun _ => hnz)
+    exact ⟨n1, σ', hst, h1, h2, Or.inl ⟨hpc, h3⟩⟩
+
+theorem md_cast_pc (pc : Nat) (spc : Nat) (h : spc = pc + 1) : ((spc : Nat) : Int) = (pc : Int) + 1 := by
+  subst h; simp
+
+/-- the block after a zero-divisor test that fell through: the machine is in `σ0`, which differs from `σ` in rcx only -/
+theorem md_after_prefix (c : Cfg) (tgt : Tgt → Option Nat) (m b retAddr : Nat) (σ σ0 : St) (s : State) (dst src : Nat)
+    (hd : dst < 11) (hs : src < 11) (k : md_Kind) (w : Bool)
+    (hcs : checkSeq c.code tgt m ((md_block (regOf dst) k w (movRR (regOf src) 1)).map AI.i) = some b)
+    (hrip : σ0.rip = c.codeBase + m) (hrel0 : Rel0 retAddr σ0 s) (htop0 : topBytes σ0 s = topBytes σ s)
+    (hnz : k ≠ .mul → md_nz w (s.reg.getD src 0)) :
+    ∃ n σ', stepsN c n σ0 = some σ' ∧
+      Rel0 retAddr σ' { s with reg := s.reg.setIfInBounds dst (md_res k w (s.reg.getD dst 0) (s.reg.getD src 0)) } ∧
+      topBytes σ' { s with reg := s.reg.setIfInBounds dst (md_res k w (s.reg.getD dst 0) (s.reg.getD src 0)) } = topBytes σ s ∧
+      σ'.rip = c.codeBase + b := by
+  obtain ⟨hS4, _, _, hS1⟩ := regOf_ne_special src hs
+  have hX : ∀ σ1, (∀ r, r ≠ 4 → σ1.get r = σ0.get r) →
+      md_Step c (movRR (regOf src) 1) σ1 (σ1.set 1 (s.reg.getD src 0)) := by
+    intro σ1 hg
+    have := md_step_movRR c σ1 (regOf src) 1
+    rwa [hg _ hS4, hrel0.regs src hs] at this
+  obtain ⟨n1, σ', hst, h1, h2, h3⟩ := md_normal c tgt m b retAddr σ0 s dst hd k w _ (s.reg.getD src 0) hcs hrip hrel0 hX hnz
+  exact ⟨n1, σ', hst, h1, h2.trans htop0, h3⟩
+
+/-- register forms -/
+theorem md_core_reg (k : md_Kind) (w : Bool) (i : Insn) (hopc : i.opc.toNat = md_code k w true) : ArmSim i := by
+  intro c tgt haddr pc n a b retAddr ais σ env s s' harm hcs hb hrip hrel hpc hexec
+  obtain ⟨hd, hs, hn, hais⟩ := md_arm_eq k w true i hopc haddr pc _ ais n harm
+  subst hn hais
+  rw [md_exec_eq k w true i hopc hd hs] at hexec
+  have hx : md_x true s i = s.reg.getD i.src.toNat 0 := by simp [md_x]
+  rw [hx] at hexec
+  obtain ⟨hS4, _, _, hS1⟩ := regOf_ne_special i.src.toNat hs
+  have hgS : σ.get (regOf i.src.toNat) = s.reg.getD i.src.toNat 0 := hrel.regs _ hs
+  cases k with
+  | mul =>
+    rw [md_shape_reg_mul] at hcs
+    rw [if_neg (by simp)] at hexec
+    have hs' := (Outcome.next.inj hexec).symm
+    subst hs'
+    obtain ⟨n1, σ', hst, h1, h2, h3⟩ := md_after_prefix c tgt a b retAddr σ σ s i.dst.toNat i.src.toNat hd hs .mul w
+      hcs hrip hrel rfl (by simp)
+    exact ⟨n1, σ', hst, h1, h2, Or.inl ⟨hpc, h3⟩⟩
+  | div =>
+    rw [md_shape_reg_div] at hcs
+    obtain ⟨σ0, v, n0, hst0, hmem0, hcase⟩ := md_prefix_div c tgt a b σ pc (.pc ((pc : Int) + 1)) w _ _ _ hS1
+      (regOf_lt _ hd) hcs hrip hb
+    rw [hgS] at hcase
+    rcases hcase with ⟨hz, hreg0, l, htl, hrip0⟩ | ⟨hz, hreg0, m, hcm, hrip0⟩
+    · rw [if_pos ⟨by simp, hz⟩, if_neg (by simp)] at hexec
+      have hs' := (Outcome.next.inj hexec).symm
+      subst hs'
+      obtain ⟨h1, h2⟩ := md_fin_wr retAddr (σ.set 1 v) σ0 s i.dst.toNat 0#64 hd
+        (rel0_scratch retAddr σ s 1 v (Or.inl rfl) hrel) hmem0 hreg0
+      exact ⟨n0, σ0, hst0, h1, h2, Or.inr ⟨l, by rw [md_cast_pc pc _ hpc]; exact htl, hrip0⟩⟩
+    · rw [if_neg (fun h => h.2 hz)] at hexec
+      have hs' := (Outcome.next.inj hexec).symm
+      subst hs'
+      obtain ⟨hrel0, htop0⟩ := md_fin_scratch retAddr σ σ0 s v hrel hmem0 hreg0
+      obtain ⟨n1, σ', hst, h1, h2, h3⟩ := md_after_prefix c tgt m b retAddr σ σ0 s i.dst.toNat i.src.toNat hd hs .div w
+        hcm hrip0 hrel0 htop0 (fun _ => hz)
+      exact ⟨n0 + n1, σ', stepsN_add c n0 n1 _ _ _ hst0 hst, h1, h2, Or.inl ⟨hpc, h3⟩⟩
+  | mod =>
+    rw [md_shape_reg_mod] at hcs
+    obtain ⟨σ0, v, hst0, hmem0, hreg0, hcase⟩ := md_prefix_mod c tgt a b σ pc (.pc ((pc : Int) + 1)) w _ _ hS1 hcs hrip hb
+    rw [hgS] at hcase
+    rcases hcase with ⟨hz, l, htl, hrip0⟩ | ⟨hz, m, hcm, hrip0⟩
+    · rw [if_pos ⟨by simp, hz⟩, if_pos rfl] at hexec
+      have hs' := Outcome.next.inj hexec
+      subst hs'
+      obtain ⟨h1, h2⟩ := md_fin_scratch retAddr σ σ0 s v hrel hmem0 hreg0
+      exact ⟨3, σ0, hst0, h1, h2, Or.inr ⟨l, by rw [md_cast_pc pc _ hpc]; exact htl, hrip0⟩⟩
+    · rw [if_neg (fun h => h.2 hz)] at hexec
+      have hs' := (Outcome.next.inj hexec).symm
+      subst hs'
+      obtain ⟨hrel0, htop0⟩ := md_fin_scratch retAddr σ σ0 s v hrel hmem0 hreg0
+      obtain ⟨n1, σ', hst, h1, h2, h3⟩ := md_after_prefix c tgt m b retAddr σ σ0 s i.dst.toNat i.src.toNat hd hs .mod w
+        hcm hrip0 hrel0 htop0 (fun _ => hz)
+      exact ⟨3 + n1, σ', stepsN_add c 3 n1 _ _ _ hst0 hst, h1, h2, Or.inl ⟨hpc, h3⟩⟩
 
 theorem armSim_muldiv (i : Insn) (h : i.opc.toNat ∈ mulDivOpcodes) : ArmSim i := by
-  sorry
+  simp only [mulDivOpcodes, List.mem_cons, List.not_mem_nil, or_false] at h
+  rcases h with h | h | h | h | h | h | h | h | h | h | h | h
+  · exact md_core_imm .mul false i h
+  · exact md_core_reg .mul false i h
+  · exact md_core_imm .div false i h
+  · exact md_core_reg .div false i h
+  · exact md_core_imm .mod false i h
+  · exact md_core_reg .mod false i h
+  · exact md_core_imm .mul true i h
+  · exact md_core_reg .mul true i h
+  · exact md_core_imm .div true i h
+  · exact md_core_reg .div true i h
+  · exact md_core_imm .mod true i h
+  · exact md_core_reg .mod true i h
 
 end Rbpf.JitSim
